@@ -10,6 +10,7 @@ import (
 	"sort"
 	"strconv"
 	"strings"
+	"sync/atomic"
 
 	"github.com/gookit/rux"
 )
@@ -104,6 +105,7 @@ type World struct {
 
 	copies     [16]*rux.Context
 	copyOrigin [16]*ReqRec
+	copyCell   [16]uint32
 	ncopies    int
 
 	// registration model state (C04)
@@ -139,23 +141,25 @@ func (w *World) setCur(t int, rs *reqState) {
 }
 
 //go:norace
-func (w *World) storeCopy(c *rux.Context, origin *ReqRec) {
+func (w *World) storeCopy(c *rux.Context, origin *ReqRec) int {
 	if w.ncopies < len(w.copies) {
 		w.copies[w.ncopies], w.copyOrigin[w.ncopies] = c, origin
 		w.ncopies++
+		return w.ncopies - 1
 	}
+	return -1
 }
 
 // finishedCopy returns the most recent stored copy whose origin request has returned.
 //
 //go:norace
-func (w *World) finishedCopy(self *ReqRec) *rux.Context {
+func (w *World) finishedCopy(self *ReqRec) (*rux.Context, int) {
 	for i := w.ncopies - 1; i >= 0; i-- {
 		if o := w.copyOrigin[i]; o != self && o.Done {
-			return w.copies[i]
+			return w.copies[i], i
 		}
 	}
-	return nil
+	return nil, -1
 }
 
 //go:norace
@@ -533,11 +537,15 @@ func (w *World) act(rs *reqState, id string, c *rux.Context, a Action) {
 	case "yield":
 		taskYield(-1)
 	case "copy": // keep a Copy() of the context beyond the request, as a handler does for a background goroutine
-		w.storeCopy(c.Copy(), rec)
+		if i := w.storeCopy(c.Copy(), rec); i >= 0 {
+			atomic.StoreUint32(&w.copyCell[i], 1) // the happens-before edge of the go statement that hands the copy over
+		}
 	case "usecopy": // the background goroutine of an earlier, finished request writes to its copy
-		if cp := w.finishedCopy(rec); cp != nil {
+		if cp, i := w.finishedCopy(rec); cp != nil {
+			atomic.LoadUint32(&w.copyCell[i])
 			cp.Set(a.S, a.V)
 			cp.AddError(errors.New("bg-" + a.V))
+			atomic.StoreUint32(&w.copyCell[i], 2) // one owner at a time: the next user of this copy is ordered after this one
 		}
 	case "selfracy": // self-test control: an unsynchronised access shared by all tasks
 		selfRacyVar++
